@@ -350,9 +350,11 @@ func c13run(sm, useTLS bool, first, lives string) string {
 				cur.Write([]byte("<r xmlns='urn:xmpp:sm:3'/>"))
 				go func(c net.Conn) { time.Sleep(400 * time.Millisecond); c.Close() }(cur)
 			}
-			if sm {
+			if sm && refuseMs > 0 {
 				// the application goes on sending while the connection is down: the send fails (the stanza stays held
-				// for the resumed session) - and must leave the session usable for everything that follows
+				// for the resumed session) - and must leave the session usable for everything that follows. Only in lives
+				// whose reconnection is refused for a while: there the send certainly meets the dead connection (a send
+				// that lands on the NEW connection in the middle of its negotiation would be the application's fault)
 				go func() {
 					defer func() { recover() }()
 					time.Sleep(3 * time.Millisecond)
@@ -473,6 +475,8 @@ func (c13) Generate(rng *rand.Rand, tier string, st *Stats) []Case {
 	mk(false, "o", "drop:r,o")       // F-13d: a refused dial must be retried
 	mk(false, "o", "drop:t,p")       // permanent error ends the loop
 	mk(true, "o", "drop:o;drop:o")   // resumed sessions
+	mk(true, "o", "drop:r,o;drop:o") // the application sends while the connection is down, then the session is resumed
+	mk(true, "o", "graceful:r,r,o")
 	mk(true, "o", "wfail:o;drop:o")  // a loss seen by a failed <a/> write: one new session, the old receiver is gone
 	mk(false, "o", "wfail:t,o;wfail:o")
 	// Stop while the manager is retrying (connections refused): Stop returns, Run returns
